@@ -11,7 +11,7 @@ from concurrent.futures import ThreadPoolExecutor
 
 VERIF = os.path.dirname(os.path.dirname(os.path.abspath(__file__)))
 REPO = os.environ.get("VERIF_REPO", "/repo")
-CACHE = os.path.join(VERIF, ".cache")
+CACHE = os.environ.get("VERIF_CACHE", os.path.join(VERIF, ".cache"))
 COQ = os.path.join(VERIF, "coq")
 TARGET = os.path.join(CACHE, "target")
 EVID = os.path.join(VERIF, "evidence")
@@ -103,6 +103,8 @@ def run_translator():
 def coq_make(targets, timeout=1500):
     """make the given .vo targets (paths relative to coq/). Returns (ok, log)."""
     with Lock("coq"):
+        gen_extract_v()
+        gen_coqproject()
         mk = os.path.join(COQ, "Makefile")
         proj = os.path.join(COQ, "_CoqProject")
         if (not os.path.exists(mk)) or os.path.getmtime(mk) < os.path.getmtime(proj):
@@ -111,6 +113,56 @@ def coq_make(targets, timeout=1500):
                 return False, out
         rc, out = sh(["make", "-j%d" % NCPU] + list(targets), cwd=COQ, timeout=timeout)
         return rc == 0, out
+
+
+def write_if_changed(path, text):
+    if not os.path.exists(path) or open(path, encoding="utf-8").read() != text:
+        os.makedirs(os.path.dirname(path), exist_ok=True)
+        with open(path, "w", encoding="utf-8") as f:
+            f.write(text)
+        return True
+    return False
+
+
+def gen_coqproject():
+    """_CoqProject lists every .v under Base/ Model/ Proofs/ Generated/ plus Extract.v
+    (Properties/*.v are compiled by each check with a direct coqc; nothing depends on them)."""
+    files = []
+    for d in ("Base", "Model", "Proofs", "Generated"):
+        dd = os.path.join(COQ, d)
+        if os.path.isdir(dd):
+            files += sorted(os.path.join(d, f) for f in os.listdir(dd) if f.endswith(".v"))
+    files.append("Extract.v")
+    text = ("-Q . Imdl\n-arg -w -arg -notation-overridden,-deprecated-hint-without-locality,"
+            "-deprecated-instance-without-locality,-unknown-option\n" + "\n".join(files) + "\n")
+    write_if_changed(os.path.join(COQ, "_CoqProject"), text)
+
+
+def gen_extract_v():
+    """coq/Extract.v is assembled from the fragments coq/Extract.d/*.txt. Fragment syntax:
+         Require: Model.Picker Model.Float53       (modules under Imdl)
+         Extract: Picker.pick Float53.round53      (constants to extract)
+    Only ExtrOcamlBasic is loaded; there is no Extract Constant / Extract Inductive of ours."""
+    d = os.path.join(COQ, "Extract.d")
+    reqs, names = [], []
+    for fn in sorted(os.listdir(d)) if os.path.isdir(d) else []:
+        if not fn.endswith(".txt"):
+            continue
+        for line in open(os.path.join(d, fn)):
+            line = line.strip()
+            if line.startswith("Require:"):
+                reqs += [x for x in line[8:].split() if x not in reqs]
+            elif line.startswith("Extract:"):
+                names += [x for x in line[8:].split() if x not in names]
+    text = ("(** GENERATED by tools/lib.py from coq/Extract.d/*.txt - do not edit.\n"
+            "    Extraction of the executable models for the correspondence runs. ExtrOcamlBasic only:\n"
+            "    bool, option, unit, list, prod, sumbool, sumor map to OCaml's; no Extract Constant;\n"
+            "    N / Z / positive / nat stay Coq inductives. *)\n"
+            "From Coq Require Import NArith ZArith List.\nFrom Coq Require Extraction ExtrOcamlBasic.\n"
+            "From Imdl Require Import %s.\n\nExtraction Language OCaml.\n"
+            "Extraction \"../runner/model.ml\"\n  N.add N.mul N.div_eucl N.of_nat N.to_nat Z.of_N Z.to_N Z.opp Z.of_nat Z.to_nat\n  %s.\n"
+            % (" ".join(reqs), "\n  ".join(names)))
+    write_if_changed(os.path.join(COQ, "Extract.v"), text)
 
 
 THM_RE = re.compile(r"^\s*(Theorem|Lemma|Example|Corollary|Fact)\s+([A-Za-z0-9_']+)", re.M)
@@ -173,12 +225,20 @@ def ensure_runner():
         bdir = os.path.join(CACHE, "runner")
         os.makedirs(bdir, exist_ok=True)
         exe = os.path.join(bdir, "modelrun")
-        srcs = [os.path.join(rdir, f) for f in ("model.mli", "model.ml", "driver.ml")]
+        frag_dir = os.path.join(rdir, "driver.d")
+        frags = sorted(f for f in os.listdir(frag_dir) if f.endswith(".ml")) if os.path.isdir(frag_dir) else []
+        drv = open(os.path.join(rdir, "driver_base.ml")).read()
+        for f in frags:
+            drv += "\n(* ---- driver.d/%s ---- *)\n" % f + open(os.path.join(frag_dir, f)).read()
+        drv += "\n" + open(os.path.join(rdir, "driver_main.ml")).read()
+        write_if_changed(os.path.join(bdir, "driver_gen.ml"), drv)
+        shutil.copy(os.path.join(bdir, "driver_gen.ml"), os.path.join(bdir, "driver.ml"))
+        srcs = [os.path.join(rdir, "model.mli"), os.path.join(rdir, "model.ml"), os.path.join(bdir, "driver.ml")]
         stamp = hashlib.sha1(b"".join(open(s, "rb").read() for s in srcs)).hexdigest()
         sf = os.path.join(bdir, "stamp")
         if os.path.exists(exe) and os.path.exists(sf) and open(sf).read() == stamp:
             return exe, ""
-        for s in srcs:
+        for s in srcs[:2]:
             shutil.copy(s, bdir)
         rc, out2 = sh("ocamlfind ocamlopt -O2 -w -a -package str model.mli model.ml driver.ml -linkpkg -o modelrun 2>&1 || "
                       "ocamlfind ocamlopt -w -a -package str model.mli model.ml driver.ml -linkpkg -o modelrun",
@@ -213,15 +273,35 @@ def ensure_rust():
         sf = os.path.join(CACHE, "rust.stamp")
         bins = {"imdl": os.path.join(TARGET, "debug", "imdl"),
                 "harness": os.path.join(TARGET, "debug", "imdl-verif-harness")}
-        hsrc = open(os.path.join(VERIF, "harness", "src", "main.rs"), "rb").read()
-        stamp = fp + hashlib.sha1(hsrc).hexdigest()
+        hdir = os.path.join(VERIF, "harness")
+        hand = os.path.join(hdir, "src", "handlers")
+        mods = sorted(f[:-3] for f in os.listdir(hand) if f.endswith(".rs")) if os.path.isdir(hand) else []
+        gen = "// GENERATED by tools/lib.py from harness/src/handlers/*.rs - do not edit\n"
+        for m in mods:
+            gen += '#[path = "handlers/%s.rs"]\nmod %s;\n' % (m, m)
+        gen += "pub fn dispatch_all(f: &[&str]) -> Option<String> {\n"
+        for m in mods:
+            gen += "  if let Some(r) = %s::dispatch(f) {\n    return Some(r);\n  }\n" % m
+        gen += "  None\n}\n"
+        write_if_changed(os.path.join(hdir, "src", "handlers_gen.rs"), gen)
+        hbuild = os.path.join(CACHE, "harness")
+        os.makedirs(hbuild, exist_ok=True)
+        write_if_changed(os.path.join(hbuild, "Cargo.toml"),
+                         '[package]\nname = "imdl-verif-harness"\nversion = "0.0.0"\nedition = "2021"\npublish = false\n\n'
+                         '[dependencies]\nimdl = { path = "%s" }\n\n[[bin]]\nname = "imdl-verif-harness"\npath = "%s"\n\n[workspace]\n'
+                         % (REPO, os.path.join(hdir, "src", "main.rs")))
+        h = hashlib.sha1()
+        for root, _, files in os.walk(os.path.join(hdir, "src")):
+            for fn in sorted(files):
+                h.update(open(os.path.join(root, fn), "rb").read())
+        stamp = fp + h.hexdigest()
         if all(os.path.exists(b) for b in bins.values()) and os.path.exists(sf) and open(sf).read() == stamp:
             return bins, "cached"
         rc, out = sh(["cargo", "build", "--offline", "--bin", "imdl"], cwd=REPO, env=env, timeout=1500)
         if rc:
             return None, out[-6000:]
-        shutil.copy(os.path.join(REPO, "Cargo.lock"), os.path.join(VERIF, "harness", "Cargo.lock"))
-        rc, out2 = sh(["cargo", "build", "--offline"], cwd=os.path.join(VERIF, "harness"), env=env, timeout=1500)
+        shutil.copy(os.path.join(REPO, "Cargo.lock"), os.path.join(hbuild, "Cargo.lock"))
+        rc, out2 = sh(["cargo", "build", "--offline"], cwd=hbuild, env=env, timeout=1500)
         if rc:
             return None, out2[-6000:]
         open(sf, "w").write(stamp)
